@@ -118,8 +118,11 @@ def rule_r1(prog, res) -> None:
     """marker written only after every guarded content file is complete and closed"""
     marker = catalog_marker_leaf(prog)
     n = 0
-    # (a) catalog: the function that publishes the marker closes every writer before
-    for fi in prog.funcs:
+    # (a) catalog: the function that publishes the marker closes every writer before (helpers of the same module are
+    # expanded in place, so a marker write that was moved into a helper is judged where it is called)
+    from ..inline import all_inlined
+
+    for fi in all_inlined(prog, keep=KEEP_CALLS):
         cfg, effs = _fs_nodes(prog, fi, deep=False)
         wnodes = [nd for nd, e, leaf, _ in effs if leaf is not None and (leaf == marker or leaf.startswith(marker)) and _is_write(e)]
         if not wnodes:
@@ -231,7 +234,9 @@ def rule_r2(prog, res) -> None:
 
     cmarker = catalog_marker_leaf(prog)
     owners = []
-    for fi in prog.funcs:
+    from ..inline import all_inlined
+
+    for fi in all_inlined(prog, keep=KEEP_CALLS):
         if fi.cls is None:
             continue
         _c, effs_ = _fs_nodes(prog, fi, deep=False)
